@@ -549,6 +549,40 @@ def check_messages(ctx, pa):
     closure = ctx.cg.reachable([root])
     n_interp = 0
     n_funcs = 0
+    # a parameter that is only ever *mentioned* (in a message) is a path
+    # all the same when callers hand it one: path-valued arguments are
+    # propagated to the parameters they are bound to, to a fixpoint
+    global _EXTRA_ROOTS
+    _EXTRA_ROOTS = dict()
+    for _round in range(4):
+        grew = False
+        for q in sorted(closure):
+            fi = db.functions.get(q)
+            if fi is None or fi.module.short.startswith(('gpu_utils',)):
+                continue
+            roots = None
+            for c in ast.walk(fi.node):
+                if not isinstance(c, ast.Call):
+                    continue
+                t = resolve_callee(db, fi, c)
+                if not isinstance(t, FunctionInfo):
+                    continue
+                m, _ = bind_args(t, c)
+                for pname, a in m.items():
+                    if a is None or pname in _EXTRA_ROOTS.get(
+                            t.qual, ()):
+                        continue
+                    if roots is None:
+                        roots = _path_roots(pa, fi)
+                    try:
+                        pv = _is_path_valued(pa, fi, a, roots)
+                    except Exception:
+                        pv = False
+                    if pv:
+                        _EXTRA_ROOTS.setdefault(t.qual, set()).add(pname)
+                        grew = True
+        if not grew:
+            break
     for q in sorted(closure):
         fi = db.functions.get(q)
         if fi is None or fi.module.short.startswith(('gpu_utils',)):
@@ -630,6 +664,7 @@ def check_messages(ctx, pa):
 
 
 REPR_RENDERED = ('KeyError',)
+_EXTRA_ROOTS = dict()
 
 MESSAGE_CALLS = {'info', 'warn', 'warning', 'error', 'debug', 'add_msg',
                  'benchmark', 'env', 'print', 'write', 'critical'}
@@ -780,6 +815,7 @@ def _path_roots(pa, fi):
     out = set()
     for e in pa.effects(fi):
         out.add(e.root)
+    out |= _EXTRA_ROOTS.get(fi.qual, set())
     return out
 
 
